@@ -6,12 +6,15 @@
 mod addr;
 mod cfgops;
 mod hist;
+mod mig;
 mod pb;
 mod probe;
+mod qry;
 mod scen;
 mod step;
 mod suites;
 mod t;
+mod tre;
 mod world;
 
 use std::collections::{BTreeMap, BTreeSet, HashMap};
@@ -60,7 +63,8 @@ fn main() {
             let out = args.opts.get("out").cloned().unwrap_or_else(|| "/dev/stdout".into());
             let only = args.opts.get("case").cloned();
             let ops: Vec<String> = args.opts.get("ops").map(|s| s.split(',').filter(|x| !x.is_empty()).map(|x| x.to_string()).collect()).unwrap_or_default();
-            let rep = suites::run_suite(&suite, &props, &tier, seed, si, sn, miniwasm, only.as_deref(), &ops);
+            let only_sub = args.opts.get("only").cloned();
+            let rep = suites::run_suite(&suite, &props, &tier, seed, si, sn, miniwasm, only.as_deref(), &ops, only_sub.as_deref());
             std::fs::write(&out, serde_json::to_string(&rep).unwrap()).expect("write report");
         }
         "replay" => {
@@ -100,6 +104,7 @@ fn main() {
                 "submit" => probe::time_step("submit", &model),
                 "receive" => probe::time_step("receive", &model),
                 "instantiate" => probe::instantiate_period(&model),
+                "derive" => probe::derive(&model),
                 other => serde_json::json!({"reproduced": false, "error": format!("unknown probe {other}")}),
             };
             println!("{}", serde_json::to_string(&r).unwrap());
